@@ -1795,8 +1795,11 @@ def check_decl(decl, namespace=None, template_types=None, trace=False):
         old_types = type_specifier
         type_specifier = set(old_types)
         type_specifier.update(template_types)
-        a = Parser(decl, namespace, trace).decl_statement()
-        type_specifier = old_types
+        try:
+            a = Parser(decl, namespace, trace).decl_statement()
+        finally:
+            # Restore even if the declaration is rejected.
+            type_specifier = old_types
     else:
         a = Parser(decl, namespace, trace).decl_statement()
     return a
